@@ -325,7 +325,8 @@ def instances(tier):
             for known in (True, False):
                 c = dict(Sc=50, Ss=50, segc=3, segs=segs, msc=16, known=known, req=(60, 60), resp=(2, 2), peer_asks_first=True)
                 out.append(Inst(limits_scn, dict(c, wmax=127), budget=400, path_timeout=90, label=label(c)))
-        out.append(Inst(window_follow, dict(nseg=8, wmax=8), budget=900, path_timeout=90))
+        out.append(Inst(window_follow, dict(nseg=6, wmax=4), budget=900, path_timeout=90))
+        out.append(Inst(window_follow, dict(nseg=7, wmax=2), budget=900, path_timeout=90))
         out.append(Inst(window_follow, dict(nseg=5, wmax=127), budget=900, path_timeout=90))
         for Sx in (1024, 1476):
             c = dict(Sc=Sx, Ss=Sx, segc=3, segs=3, msc=16, known=True, req=(Sx - 14, Sx - 10), resp=(2, 2))
